@@ -39,6 +39,7 @@ type sampleHistory struct {
 	Swarm    Swarm    `json:"swarm"`
 	Clients  [][]Op   `json:"clients"`
 	Schedule string   `json:"schedule_released_client_ids"`
+	Blocked  []int    `json:"blocked_steps,omitempty"` // steps at which the released client was found asleep on a lock taken without a yield point
 	History  []HistOp `json:"history"`
 	Result   string   `json:"result"`
 }
@@ -47,6 +48,7 @@ type foundViolation struct {
 	run      int64
 	spec     RunSpec
 	schedule []int
+	blocked  []bool
 	v        Violation
 }
 
@@ -93,6 +95,11 @@ func (a *aggregate) add(idx int64, spec RunSpec, sw Swarm, res *ExecResult) {
 	a.stats.ValidationOdd += s.ValidationOdd
 	a.stats.ServedPrices += s.ServedPrices
 	a.stats.AbsentPrices += s.AbsentPrices
+	a.stats.HiddenLockSleeps += s.HiddenLockSleeps
+	a.stats.HiddenLockWakes += s.HiddenLockWakes
+	a.stats.MultiMarketReads += s.MultiMarketReads
+	a.stats.MultiMarketUpds += s.MultiMarketUpds
+	a.stats.SnapshotWindows += s.SnapshotWindows
 	if sw.Clients >= 0 && sw.Clients < len(a.swarmSeen) {
 		a.swarmSeen[sw.Clients]++
 	}
@@ -104,7 +111,7 @@ func (a *aggregate) add(idx int64, spec RunSpec, sw Swarm, res *ExecResult) {
 		a.internal = fmt.Errorf("run %d: %w", idx, res.Internal)
 	}
 	if res.Violation != nil {
-		a.found[idx] = &foundViolation{run: idx, spec: spec, schedule: res.Schedule, v: *res.Violation}
+		a.found[idx] = &foundViolation{run: idx, spec: spec, schedule: res.Schedule, blocked: res.BlockedAt, v: *res.Violation}
 	}
 	if idx < a.from+3 {
 		result := "ok"
@@ -116,7 +123,7 @@ func (a *aggregate) add(idx int64, spec RunSpec, sw Swarm, res *ExecResult) {
 			result = "porcupine-unknown"
 		}
 		a.samples = append(a.samples, sampleHistory{Run: idx, Swarm: sw, Clients: spec.Clients,
-			Schedule: intsToString(res.Schedule), History: res.History, Result: result})
+			Schedule: intsToString(res.Schedule), Blocked: blockedSteps(res.BlockedAt), History: res.History, Result: result})
 	}
 	// in-order combination of the per-run event-log hashes
 	a.pending[idx] = res.LogHash
@@ -129,6 +136,31 @@ func (a *aggregate) add(idx int64, spec RunSpec, sw Swarm, res *ExecResult) {
 		delete(a.pending, a.nextIdx)
 		a.nextIdx++
 	}
+}
+
+// blockedSteps lists the indexes of the scheduling steps at which the released client was found
+// asleep on a real lock (replay file field blocked_steps).
+func blockedSteps(flags []bool) []int {
+	var out []int
+	for i, b := range flags {
+		if b {
+			out = append(out, i)
+		}
+	}
+	return out
+}
+
+func blockedFlags(steps []int, n int) []bool {
+	if len(steps) == 0 {
+		return nil
+	}
+	out := make([]bool, n)
+	for _, s := range steps {
+		if s >= 0 && s < n {
+			out[s] = true
+		}
+	}
+	return out
 }
 
 func intsToString(xs []int) string {
@@ -406,9 +438,9 @@ func RunTier(cfg RunConfig) int {
 		}
 	}
 
-	fmt.Printf("pricesim %s seed=%d histories=%d ops=%d yields=%d distinct_overlapping_schedules=%d porcupine_ok=%d porcupine_unknown=%d lock_contention=%d cs_interleavings=%d race_subrun(ran=%v runs=%d races=%d) wall=%.1fs\n",
+	fmt.Printf("pricesim %s seed=%d histories=%d ops=%d yields=%d distinct_overlapping_schedules=%d porcupine_ok=%d porcupine_unknown=%d lock_contention=%d cs_interleavings=%d unannounced_lock_sleeps=%d race_subrun(ran=%v runs=%d races=%d) wall=%.1fs\n",
 		cfg.Tier, cfg.Seed, agg.runs, agg.stats.Ops, agg.stats.Yields, len(agg.distinct), agg.stats.PorcupineOK, agg.stats.PorcupineUnknown,
-		agg.stats.LockContention, agg.stats.OverlapEvents, race.ran, race.runs, race.races, wall)
+		agg.stats.LockContention, agg.stats.OverlapEvents, agg.stats.HiddenLockSleeps, race.ran, race.runs, race.races, wall)
 	if cfg.LogHash {
 		fmt.Printf("LOGHASH %s runs=%d\n", hex.EncodeToString(agg.hasher.Sum(nil)), agg.nextIdx)
 	}
@@ -430,26 +462,29 @@ func RunTier(cfg RunConfig) int {
 
 // reportSimViolation minimises, confirms by an in-process PRNG-free replay and writes the file.
 func reportSimViolation(cfg RunConfig, f *foundViolation) (path, kind, detail string, err error) {
-	spec, sched, attempts := Minimise(f.spec, f.schedule, f.v.Kind, 45*time.Second)
+	spec, sched, blk, attempts := Minimise(f.spec, f.schedule, f.blocked, f.v.Kind, 45*time.Second)
 	note := fmt.Sprintf("minimised from %d ops / %d scheduling steps in %d attempts", f.spec.NumOps(), len(f.schedule), attempts)
-	confirm, n, ok := ExecuteUntil(spec, sched, f.v.Kind, replayAttempts, ExecOpts{})
+	confirm, n, ok := ExecuteUntil(spec, sched, blk, f.v.Kind, replayAttempts, ExecOpts{})
 	if !ok {
 		// fall back to the unminimised original
-		spec, sched = f.spec, f.schedule
+		spec, sched, blk = f.spec, f.schedule, f.blocked
 		note = "minimised form did not confirm; original history kept"
-		confirm, n, ok = ExecuteUntil(spec, sched, f.v.Kind, replayAttempts, ExecOpts{})
+		confirm, n, ok = ExecuteUntil(spec, sched, blk, f.v.Kind, replayAttempts, ExecOpts{})
 		if !ok {
-			confirm, n, ok = ExecuteUntil(spec, sched, "", replayAttempts, ExecOpts{})
+			confirm, n, ok = ExecuteUntil(spec, sched, blk, "", replayAttempts, ExecOpts{})
 		}
 		if !ok {
-			return "", "", "", fmt.Errorf("run %d: violation %q did not reproduce under PRNG-free replay", f.run, f.v.Kind)
+			if confirm != nil && confirm.Internal != nil {
+				return "", "", "", fmt.Errorf("run %d: PRNG-free replay of violation %q ended in simulator trouble: %w", f.run, f.v.Kind, confirm.Internal)
+			}
+			return "", "", "", fmt.Errorf("run %d: violation %q did not reproduce under PRNG-free replay (original detail: %s)", f.run, f.v.Kind, f.v.Detail)
 		}
 	}
 	if n > 1 {
 		note += fmt.Sprintf("; reproduction needed %d executions of the same schedule (the code under test iterates a Go map in randomised order while another goroutine is inside the critical section)", n)
 	}
 	rp := &Replay{Property: PropertyID, Kind: confirm.Violation.Kind, Mode: "sim", Seed: cfg.Seed, Run: f.run,
-		Spec: spec, Schedule: confirm.Schedule, Detail: confirm.Violation.Detail, Note: note}
+		Spec: spec, Schedule: confirm.Schedule, BlockedSteps: blockedSteps(confirm.BlockedAt), Detail: confirm.Violation.Detail, Note: note}
 	path = filepath.Join(cfg.Replays, fmt.Sprintf("%s-%d-%d.json", PropertyID, cfg.Seed, f.run))
 	if err := WriteReplay(path, rp); err != nil {
 		return "", "", "", err
@@ -487,10 +522,11 @@ func ReplayFile(path string, raceBin string, repeat int) int {
 		fmt.Fprintln(os.Stderr, "pricesim: this binary was built without -tags verif; use build.sh")
 		return 2
 	}
-	res, n, ok := ExecuteUntil(rp.Spec, rp.Schedule, rp.Kind, replayAttempts, ExecOpts{KeepLog: true})
+	blk := blockedFlags(rp.BlockedSteps, len(rp.Schedule))
+	res, n, ok := ExecuteUntil(rp.Spec, rp.Schedule, blk, rp.Kind, replayAttempts, ExecOpts{KeepLog: true})
 	if !ok && res.Internal == nil {
 		// the recorded kind did not show up: is there any violation at all?
-		res, n, _ = ExecuteUntil(rp.Spec, rp.Schedule, "", replayAttempts, ExecOpts{KeepLog: true})
+		res, n, _ = ExecuteUntil(rp.Spec, rp.Schedule, blk, "", replayAttempts, ExecOpts{KeepLog: true})
 	}
 	if res.Internal != nil {
 		fmt.Fprintln(os.Stderr, "pricesim: internal error:", res.Internal)
@@ -572,6 +608,14 @@ func writeEvidence(cfg RunConfig, agg *aggregate, race raceOutcome, violations i
 		"server_path_rejected":         st.ServerRejected,
 		"server_validation_unexpected": st.ValidationOdd,
 		"histories_per_client_count":   perClients,
+		"multi_market_reads":           st.MultiMarketReads,
+		"multi_market_updates":         st.MultiMarketUpds,
+		"snapshot_windows":             st.SnapshotWindows,
+		"snapshot_windows_note":        "multi_market_reads = reads requesting >= 2 markets; multi_market_updates = updates carrying items for >= 2 distinct markets; snapshot_windows = (read, update) pairs that were in flight at the same time where the update carries items for >= 2 of the markets the read requests, i.e. the situations in which a read that is not atomic over its markets can return a mix of two cache states (the sequential model evaluates all requested markets of a read against ONE state between completed updates)",
+		"unannounced_lock_sleeps":      st.HiddenLockSleeps,
+		"unannounced_lock_wakeups":     st.HiddenLockWakes,
+		"unannounced_lock_note":        "a released client that takes a lock WITHOUT a yield point in front of it while a parked client holds that lock goes to sleep inside the real Lock call; the scheduler classifies it as asleep from a goroutine dump in which every client goroutine of the process is parked or asleep (never from elapsed time), keeps it in a blocked set, goes on with the other clients and takes it back at its next yield point after the holder unlocked. 0 on code whose every Lock has a yield point in front (the checked-in code)",
+		"blocked_after_ms":             float64(BlockedAfter) / float64(time.Millisecond),
 		"workers":                      cfg.Workers,
 		"sim_wall_s":                   simWall,
 		"race_subrun": map[string]interface{}{
@@ -610,7 +654,9 @@ func writeEvidence(cfg RunConfig, agg *aggregate, race raceOutcome, violations i
 			"Server validation outcomes (zero price / missing time / empty batch rejected) are followed by the model (rejected => no state change) but a wrong validation verdict alone is only counted (server_validation_unexpected), since C20 does not state it.",
 			"Timestamps stay within a few maxAge of 2023-11-14T22:13:20Z; extreme time.Time values (year 1, beyond int64 nanoseconds) are not generated.",
 			"Every history, its results and its event log are a pure function of (seed, run index) as long as reads of the cache are atomic (verified: identical log hash over 30 processes with GOMAXPROCS 1/4/16). If a code change lets a reader interleave with a writer, the randomised iteration order of the Go map inside ExchangeToPrice.GetValidPrices (not controllable by the scheduler) can change a read result under the same schedule; minimisation and replay therefore re-execute a schedule up to 40 times until the recorded violation kind shows up.",
-			"The watchdog (5 s without progress, counted in monitor ticks) and the porcupine timeout (30 s) are the only uses of the wall clock; both lead to exit 2 / an 'unknown' count, never to a violation.",
+			"A read is modelled as ONE atomic step: all requested markets are evaluated against the same cache state, which must be a state between two completed updates (an update batch is one atomic step as well). A read that returns market A as of before an update and market B as of after it is therefore not linearizable.",
+			"The wall clock is used in three places, none of which can produce or hide a violation: the watchdog (5 s without progress, counted in monitor ticks -> exit 2), the porcupine timeout (30 s -> 'unknown' count), and BlockedAfter (default 20 ms, env PRICESIM_BLOCKED_AFTER_MS): when a released client has been silent for that long the scheduler LOOKS at the goroutine states. A client is treated as asleep on a lock only on the evidence of a goroutine dump (world stopped, one instant) in which every simulated client goroutine of the process is parked or asleep in a wait, so that the holder of the lock cannot move without a scheduler decision; a slow goroutine or one queueing for a process-wide lock held by a running goroutine is never mistaken for it. The outcome of every release (reached a yield point / found asleep) is part of the trace (replay file field blocked_steps) and replay expects exactly that outcome.",
+			"One client at a time holds for everything that passes yield points. The only real concurrency is between a client that has just unlocked and the sleeper it woke (each runs to its next yield point before the next scheduling decision is taken); on code that accesses shared state only under its locks the two cannot conflict.",
 			"porcupine v1.3.0, github.com/petermattis/goid (goroutine id for the hook; cross-checked against runtime.Stack at start-up) and math/big are trusted; the cache's internal maps are observed through unsafe pointers only while every simulated goroutine is parked.",
 		},
 		"coverage": cov,
